@@ -68,7 +68,7 @@ Section Resume.
           end
     end.
 
-  Definition fuel_of : nat := (limit + 3)%nat.
+  Definition fuel_of : nat := S (S (S limit)).
 
   (* Client.Do: a fresh response, then next *)
   Definition open (expect : Z) (boff0 : nat) : nres * rst * list (option (Z * Z)) :=
@@ -117,3 +117,8 @@ Section Resume.
         end
     end.
 End Resume.
+
+Arguments RpFail {byte}. Arguments RpOk {byte}.
+Arguments mkR {byte}. Arguments r_cur {byte}. Arguments r_max {byte}. Arguments r_retry {byte}. Arguments r_att {byte}.
+Arguments r_boff {byte}. Arguments r_alive {byte}. Arguments r_done {byte}. Arguments r_body {byte}. Arguments r_end {byte}.
+Arguments range_of {byte}. Arguments next {byte}. Arguments open {byte}. Arguments read {byte}. Arguments drain {byte}.
